@@ -126,6 +126,20 @@ def check_pruner_body(ctx: Ctx, cname: str, pr: FuncInfo) -> None:
         acc = test.args[0].value.id
     elif isinstance(test, ast.Call) and call_name(test) == (var, "avoids_set") and len(test.args) == 1 and isinstance(test.args[0], ast.Name):
         acc = test.args[0].id
+    if acc is None and isinstance(test, ast.BoolOp):
+        # the exact test wrapped in and/or: recognised, but no longer "accept iff it avoids every accepted element"
+        inner = [v for v in test.values if isinstance(v, ast.Call) and call_name(v) == (var, "avoids") and len(v.args) == 1 and isinstance(v.args[0], ast.Starred)]
+        if len(inner) == 1:
+            accn = unparse(inner[0].args[0].value)
+            others = [v for v in test.values if v is not inner[0]]
+            if isinstance(test.op, ast.Or) and all(unparse(o) == f"not {accn}" for o in others):
+                acc = accn  # ``not acc or patt.avoids(*acc)`` is the same test
+            elif isinstance(test.op, ast.Or):
+                ctx.violation("C05-O1", pr, loop.body[0], f"a pattern is also accepted when `{' or '.join(unparse(o) for o in others)}` without being checked against the accepted elements: the basis may keep an element that contains another (or a repeated element)")
+                return
+            else:
+                ctx.violation("C05-O1", pr, loop.body[0], f"a pattern that avoids every accepted element is still dropped unless `{' and '.join(unparse(o) for o in others)}`: the pruned basis may no longer define the class of the input")
+                return
     if acc is None:
         if isinstance(test, ast.Call) and call_name(test) and call_name(test)[-1] in ("contains", "avoids", "avoids_set"):
             ctx.violation("C05-O1", pr, loop.body[0], f"accept test `{unparse(test)}` is not `pattern avoids every accepted element`")
